@@ -185,8 +185,8 @@ theorem pushNone_within : ∀ (b : B), Within (positions b) (pushNone b)
     simp only [positions]; exact tail_sub'
   | .dictionary p idx vals index => by
     unfold pushNone
-    refine within_ann (self_mem_positions _) (Within.bind (within_ann (self_mem_positions _)
-      (Within.mono ?_ (pushNone_within idx))) fun _ _ => Within.of_ok _)
+    refine within_ann (self_mem_positions _) (Within.ite _ (NoCtx.within _) (Within.bind (within_ann (self_mem_positions _)
+      (Within.mono ?_ (pushNone_within idx))) fun _ _ => Within.of_ok _))
     intro q hq; simp only [positions, List.mem_cons, List.mem_append]; exact .inr (.inl hq)
 
 /-! ### struct rows -/
